@@ -21,6 +21,7 @@ client verifier accepts [primary], the server verifier [primary, alternate] (or 
 generated certificate names exactly the name it is registered under for SNI, that the pinned-dial
 verifier uses [own primary name], and that every dial passes the endpoint's primary name as SNI.
 One layer out: nothing writes a field of a rustls config after the builder chain and the TLS code keeps no stateful static, so no session state crosses listeners.
+The name setters of both builders store the name exactly as given (std conversions only).
 """
 TRUSTED = ["rustls SNI certificate selection (ResolvesServerCertUsingSni)", "webpki subject-name matching", "rcgen puts the given names into SubjectAltName"]
 NOT_DECIDED = ["adversarial hello/certificate combinations as inputs to rustls", "rustls/webpki name matching internals"]
@@ -363,6 +364,8 @@ def run(cx):
         ob.floor(n, 20, "projection writes inspected in crate anemo")
         MUT = ("OnceLock", "OnceCell", "LazyLock", "Lazy<", "Mutex", "RwLock", "Atomic", "RefCell", "UnsafeCell", "DashMap")
         check_builder_setters(ob, prog, "anemo::network::Builder", {"server_name": ("server_name", "server_name"), "alternate_server_name": ("alternate_server_name", "server_name")})
+        check_builder_setters(ob, prog, "anemo::config::EndpointConfigBuilder", {"server_name": ("server_name", "server_name"), "alternate_server_name": ("alternate_server_name", "server_name")},
+                              key="endpoint-builder")
         statics = [p_ for p_, b_ in prog.bodies.items() if b_.crate == "anemo" and b_.kind.startswith("Static") and p_.startswith(("anemo::config", "anemo::crypto", "anemo::endpoint"))
                    and "__CALLSITE" not in p_ and any(k in b_.local_ty(0) for k in MUT)]          # (constant tables are fine; anything that can hold state is not)
         ob.require(not statics, "tls-state-in-static", f"process-wide state in the TLS / endpoint configuration code: {statics[:3]}", "anemo::config")
